@@ -667,19 +667,25 @@ class Judge:
         jobs = jobs or self.jobs
         n = len(exes)
         nev = sum(len(e.script) for e in exes)
-        k = max(1, min(jobs, nev // 4000 + 1))
+        # chunks of at most ~40000 events, at least `jobs` of them when there is enough work
+        k = max(1, min(jobs, nev // 4000 + 1), (nev + 39999) // 40000)
         step = (n + k - 1) // k
         out, err, unproc = [], [], set()
+        sem = threading.Semaphore(jobs)
 
         def one(base, part, t):
-            try:
-                rej = self.ctx.validate_histories(TRACE[0], TRACE[1], [e.events() for e in part], tag=t,
-                                                  max_reject=max_reject, timeout=1700)
-                out.extend((base + i, line, inv) for i, line, inv in rej)
-                if len(rej) >= max_reject:
-                    unproc.update(range(base + rej[-1][0] + 1, base + len(part)))
-            except Exception as ex:
-                err.append(ex)
+            with sem:
+                try:
+                    if err:
+                        unproc.update(range(base, base + len(part)))
+                        return
+                    rej = self.ctx.validate_histories(TRACE[0], TRACE[1], [e.events() for e in part], tag=t,
+                                                      max_reject=max_reject, timeout=1700)
+                    out.extend((base + i, line, inv) for i, line, inv in rej)
+                    if len(rej) >= max_reject:
+                        unproc.update(range(base + rej[-1][0] + 1, base + len(part)))
+                except Exception as ex:
+                    err.append(ex)
         ths = []
         for b in range(0, n, step):
             with self.lock:
